@@ -44,6 +44,21 @@ var (
 	dtUnsafe  = DT{"unsafe.Pointer", tensor.UnsafePointer}
 )
 
+// user-defined element types (the library's documented extension point): a 24-byte struct and a
+// 6-byte array. They are stored and moved through the reflection branches of the library.
+type rec24 struct {
+	A int64
+	B float64
+	C int32
+}
+type arr6 [3]int16
+
+var (
+	dtRec24 = DT{"rec24", tensor.Dtype{Type: reflect.TypeOf(rec24{})}}
+	dtArr6  = DT{"arr6", tensor.Dtype{Type: reflect.TypeOf(arr6{})}}
+)
+var extDTs = []DT{dtRec24, dtArr6}
+
 var allDTs = []DT{dtBool, dtInt, dtInt8, dtInt16, dtInt32, dtInt64, dtUint, dtUint8, dtUint16, dtUint32, dtUint64,
 	dtF32, dtF64, dtC64, dtC128, dtStr, dtUintptr, dtUnsafe}
 
@@ -58,6 +73,11 @@ var floatCplxDTs = []DT{dtF32, dtF64, dtC64, dtC128}
 
 func dtByName(n string) DT {
 	for _, d := range allDTs {
+		if d.Name == n {
+			return d
+		}
+	}
+	for _, d := range extDTs {
 		if d.Name == n {
 			return d
 		}
@@ -128,6 +148,10 @@ func conv(d DT, k int64) interface{} {
 		return uintptr(k)
 	case "unsafe.Pointer":
 		return unsafe.Pointer(&ptrAnchors[int(uint64(k)%4096)])
+	case "rec24":
+		return rec24{A: k, B: float64(k) + 0.5, C: int32(-k)}
+	case "arr6":
+		return arr6{int16(k), int16(k + 1000), int16(-k)}
 	}
 	panic("HARNESS: conv " + d.Name)
 }
@@ -171,6 +195,10 @@ func specials(d DT) []interface{} {
 		return []interface{}{uintptr(math.MaxUint64), uintptr(1) << 40}
 	case "unsafe.Pointer":
 		return []interface{}{unsafe.Pointer(nil)}
+	case "rec24":
+		return []interface{}{rec24{}, rec24{A: math.MaxInt64, B: math.Inf(1), C: math.MinInt32}}
+	case "arr6":
+		return []interface{}{arr6{}, arr6{32767, -32768, -1}}
 	}
 	panic("HARNESS: specials " + d.Name)
 }
